@@ -24,10 +24,14 @@ Init ==
   \/ \E p \in 1..3 : \E idem \in 0..1 : \E s \in 1..Len(ScriptSeq) : \E k \in 1..5 : \E w \in 0..1 : \E cl \in 1..3 :
        /\ Full \/ (k \in {((p + idem + s) % 3) + 1, 4 + ((p + s) % 2)} /\ w = (p + s) % 2 /\ cl = ((idem + s) % 3) + 1)
        /\ c = [kind |-> Kinds[k], idem |-> idem, policy |-> Pols[p], policy_on |-> IF w = 1 THEN "statement" ELSE "profile", cl |-> Cls[cl],
-               spec |-> NoSpec, script |-> ScriptSeq[s], settle_ms |-> 30]
+               spec |-> NoSpec, script |-> ScriptSeq[s], settle_ms |-> 30, orphans |-> 0]
+  \* the connection under the request is broken by the driver itself: too many old orphaned stream ids (a broken connection like any other)
+  \/ \E p \in 1..2 : \E idem \in 0..1 :
+       c = [kind |-> "execute", idem |-> idem, policy |-> Pols[p], policy_on |-> "profile", cl |-> "Quorum",
+            spec |-> NoSpec, script |-> <<R("orphan_break"), R("ok")>>, settle_ms |-> 30, orphans |-> 1500]
   \/ \E k \in 1..5 : \E idem \in 0..1 : \E mx \in 1..2 : \E s \in SpecScripts :
        c = [kind |-> Kinds[k], idem |-> idem, policy |-> "default", policy_on |-> "profile", cl |-> "Quorum",
-            spec |-> [max |-> mx, interval_ms |-> 40], script |-> s, settle_ms |-> 350]
+            spec |-> [max |-> mx, interval_ms |-> 40], script |-> s, settle_ms |-> 350, orphans |-> 0]
 Next == UNCHANGED c
 Spec == Init /\ [][Next]_c
 Emit == PrintT(<<"SCEN", ToJson(c)>>)
